@@ -99,7 +99,7 @@ def run(ctx):
                                obligation="Cursor.step (Props/C07) = teaal.ir.tensor.Tensor on this operation sequence"), False)
     recs = pool.collect(ctx, [dict(gen="g1", count=20 * k, modes=["plain"], nexec=1, opts={"allow_take": False}), dict(gen="g2", count=40 * k, modes=["plain"], nexec=2),
                               dict(gen="g3", count=40 * k, modes=["plain"], nexec=2), dict(gen="g4", count=25 * k, modes=["plain"], nexec=0),
-                              dict(gen="g5", count=25 * k, modes=["plain"], nexec=2), dict(gen="g3w", count=12 * k, modes=["plain"], nexec=2), dict(gen="g5flat", count=12 * k, modes=["plain"], nexec=2)])
+                              dict(gen="g5", count=25 * k, modes=["plain"], nexec=2), dict(gen="g3w", count=12 * k, modes=["plain"], nexec=2), dict(gen="g5flat", count=12 * k, modes=["plain"], nexec=2), dict(gen="g3ff", count=12 * k, modes=["plain"], nexec=2), dict(gen="g3v", count=8 * k, modes=["plain"], nexec=2)])
     reqs, metas = [], []
     for r in recs:
         if not r["ok"]:
